@@ -15,6 +15,9 @@
   columns, index and dtypes.  Private attributes are walked only for the alias sink.
 * ``gen_state(g, "library")``: start_genome/geno/pheno/bval/gmod dicts holding real library objects of every kind the
   containers are documented to hold.
+* ``user_subclass``: a user's subclass of a library class (same constructor, class attribute, one overridden query method);
+  with the stream ``gs`` about a third of the generated library objects are instances of one.  Such instances are library
+  objects for the digests (decided through the MRO) and their class is part of what is compared (``__class__``).
 Nothing here is derived from the library's code.
 """
 import hashlib
